@@ -425,10 +425,16 @@ func (t *parser) listItem(list []interface{}, i, nestedNameLevel int) ([]interfa
 
 		// Recurse
 		e := t.key(inner, nestedNameLevel)
-		if e != nil {
+		if e != nil && (e != io.EOF || len(inner) == 0) {
 			return list, e
 		}
-		return setIndex(list, i, inner)
+		// io.EOF only signals the end of the input (e.g. an empty value at
+		// the end of the line); the parsed item must still be stored.
+		list, err := setIndex(list, i, inner)
+		if err != nil {
+			return list, err
+		}
+		return list, e
 	default:
 		return nil, errors.Errorf("parse error: unexpected token %v", last)
 	}
